@@ -159,3 +159,106 @@ def P_path_steps(r, node):
         out.append(n)
         n = nodes[n - 1]["p"]
     return out
+
+
+def _clean_job(job):
+    d, lang, tok = job
+    try:
+        t = X.explore(d, {"max_nodes": 3000}, lang=lang, tok=tok)
+        return [f for n, f in sorted(t.fins.items()) if f["rest"]], t.truncated
+    except Exception as e:
+        return {"error": "%s: %s" % (type(e).__name__, e)}, True
+
+
+def rerun_groups(results, max_per_tree=40, rng=None):
+    """Leaves of rerun histories in which every report after the (last) rerun succeeded, each
+    with the terminal observations of the clean scenario (last reported status per task)."""
+    rng = rng or random.Random(0)
+    cands = []
+    for r in results:
+        if not D_is_plain(r["d"]):
+            continue
+        picked = []
+        for n, f in r["fins"].items():
+            if not (f["rest"] and f["wf"] in TERMINAL):
+                continue
+            sched = P.node_schedule(r, n)
+            idx = [i for i, c in enumerate(sched) if c[0] == "rerun"]
+            if not idx:
+                continue
+            after = [c for c in sched[idx[-1] + 1:] if c[0] == "rep"]
+            if not after or any(c[4] != "succeeded" for c in after):
+                continue
+            last = {}
+            multi = False
+            for c in sched:
+                if c[0] == "rep" and c[4] in ("succeeded", "failed"):
+                    last[c[1]] = c[4]
+            fates = {t: ["s" if last.get(t, "succeeded") == "succeeded" else "f"] for t in r["d"]["tasks"]}
+            # does the (last) rerun request leave a failed execution or a fail command behind?
+            req = sched[idx[-1]][1]
+            pre = P_obs_before(r, n, idx[-1])
+            doom = [e for e in pre["seq"] if e["st"] in ("failed", "timeout", "abandoned")]
+            if req:
+                left = [e for e in doom if [e["id"], e["route"]] not in [[q[0], q[1]] for q in req]]
+            else:
+                left = [e for e in doom if e["id"] == "fail" or not e["term"]]
+            picked.append((n, sched, fates, bool(left)))
+        if len(picked) > max_per_tree:
+            picked = rng.sample(picked, max_per_tree)
+        for n, sched, fates, partial in picked:
+            cands.append((r, n, sched, fates, partial))
+    cache, jobs = {}, []
+    for r, n, sched, fates, partial in cands:
+        key = (r["d"]["name"], tuple(sorted((t, f[0]) for t, f in fates.items())))
+        if key not in cache:
+            dd = dict(r["d"])
+            dd["fates"] = fates
+            dd["name"] = r["d"]["name"] + "_clean"
+            cache[key] = len(jobs)
+            jobs.append((dd, r["lang"], r["tok"]))
+    if not jobs:
+        return [], 0
+    with mp.Pool(16) as pool:
+        outs = pool.map(_clean_job, jobs, chunksize=2)
+    groups, skipped = [], 0
+    for r, n, sched, fates, partial in cands:
+        key = (r["d"]["name"], tuple(sorted((t, f[0]) for t, f in fates.items())))
+        fins, trunc = outs[cache[key]]
+        if trunc or isinstance(fins, dict) or not fins:
+            skipped += 1
+            continue
+        ms = [{"role": "rerun", "fin": r["fins"][n], "sched": sched}]
+        seen = set()
+        for f in fins:
+            k = (f["wf"], str(sorted(f["out"].items())))
+            if k in seen:
+                continue
+            seen.add(k)
+            ms.append({"role": "clean", "fin": f, "sched": []})
+        ms[0]["fin"] = dict(ms[0]["fin"], partial=partial)
+        groups.append({"kind": "rerun", "def": X.tla_def(r["d"]), "members": ms,
+                       "replay": {"def": r["d"], "lang": r["lang"], "tok": r["tok"], "schedule": sched,
+                                  "clean_fates": fates}})
+    return groups, skipped
+
+
+def D_is_plain(d):
+    """acyclic, no retry: one execution per task name and route is what 'clean run' can mean"""
+    from . import defs as DD
+    return DD.is_acyclic(d) and not any(t["retry"]["on"] for t in d["tasks"].values())
+
+
+def P_obs_before(r, leaf, k):
+    """observation just before the k-th choice of the schedule ending at `leaf`"""
+    nodes = r["tree"]["nodes"]
+    path = list(reversed(P_path_steps(r, leaf)))
+    seen = -1
+    prev = None
+    for n in path:
+        if r["sched"][n] is not None:
+            seen += 1
+            if seen == k:
+                return nodes[prev - 1]["obs"] if prev else nodes[n - 1]["obs"]
+        prev = n
+    return nodes[path[-1] - 1]["obs"]
